@@ -190,8 +190,12 @@ pub enum Mode {
 }
 
 /// The premise "bounded" of C06, made checkable: fewer drops than the retransmit budget of a
-/// single segment, and — when packets are also delayed — the worst case of all drops and the two
-/// longest delays falling on one segment still stays below the abort point.
+/// single segment (`D <= retx_max - 1`), and — when packets are also delayed by up to `d` rounds —
+/// `T*D + 2*d + 4 <= T*(retx_max+1)`: every drop costs one retransmission interval `T`, the
+/// segment that finally gets through and its ACK may each be `d` rounds late, and the sum must end
+/// before the stack's abort point `T*(retx_max+1)`, with 4 rounds of quantisation slack (the round
+/// in which the segment is emitted, the receiver's ACK leaving one round after delivery, and the
+/// inclusive/exclusive reading of "round trip below").
 pub fn plan_is_bounded(cfg: &Cfg, plan: &Plan) -> bool {
     if plan.hole != Hole::None {
         return false;
